@@ -4,6 +4,7 @@ import (
 	"fmt"
 	"go/token"
 	"sort"
+	"strings"
 
 	"golang.org/x/tools/go/ssa"
 
@@ -161,10 +162,21 @@ func classifyLoop(p *core.Prog, fn *ssa.Function, h *ssa.BasicBlock, body map[*s
 			_ = exitOnEmpty
 			if u, ok := f.L.Val.(*ssa.Call); ok && len(u.Call.Args) == 1 {
 				if cur := cursorCell(p, u.Call.Args[0]); cur != nil {
+					if ph, isPhi := cur.(*ssa.Phi); isPhi && body[ph.Block()] {
+						// the cursor pointer itself changes from one iteration to the next
+						// (compression pointers): consuming reads prove nothing about progress
+						if k, w := classifyBudget(p, h, body); k != "" {
+							return k, w
+						}
+						return "", "the cursor is re-pointed inside the loop (reads on it do not measure progress) and no counter bounds the iterations"
+					}
 					return classifyCursor(p, h, body, cur)
 				}
 			}
 		}
+	}
+	if k, w := classifyBudget(p, h, body); k != "" {
+		return k, w
 	}
 	// range-over-func bodies and others are handled by callers
 	return "", "no termination variant recognised"
@@ -452,4 +464,127 @@ func loopRules(p *core.Prog, r *core.Run, rule string, fns []*ssa.Function, spec
 		}
 	}
 	return maxDepth
+}
+
+// classifyBudget: every back edge strictly increases some header counter that
+// is compared with a constant on an exit test dominating that back edge, and
+// no back edge decreases any such counter.
+func classifyBudget(p *core.Prog, h *ssa.BasicBlock, body map[*ssa.BasicBlock]bool) (string, string) {
+	var phis []*ssa.Phi
+	for _, in := range h.Instrs {
+		if ph, ok := in.(*ssa.Phi); ok && isIntType(ph.Type()) {
+			phis = append(phis, ph)
+		}
+	}
+	if len(phis) == 0 {
+		return "", ""
+	}
+	sf := newSafety(p, nil)
+	// step(ph, i): 1 strictly increasing, 0 unchanged/non-decreasing, -1 unknown
+	step := func(ph *ssa.Phi, i int) int {
+		e := ph.Edges[i]
+		if e == ssa.Value(ph) {
+			return 0
+		}
+		bo, ok := e.(*ssa.BinOp)
+		if !ok || bo.Op != token.ADD || bo.X != ssa.Value(ph) {
+			return -1
+		}
+		lo, ok := sf.valLower(bo.Y, map[*ssa.Phi]bool{})
+		if !ok {
+			if l, _, ok2 := sf.rng(bo.Y, 0); ok2 {
+				lo, ok = l, true
+			}
+		}
+		// len(x)+1 and similar
+		if !ok {
+			if b2, ok2 := bo.Y.(*ssa.BinOp); ok2 && b2.Op == token.ADD {
+				if c, isC := b2.Y.(*ssa.Const); isC && c.Value != nil {
+					if l, ok3 := sf.valLower(b2.X, map[*ssa.Phi]bool{}); ok3 {
+						lo, ok = l+c.Int64(), true
+					}
+				}
+			}
+		}
+		if !ok {
+			return -1
+		}
+		if lo >= 1 {
+			return 1
+		}
+		if lo >= 0 {
+			return 0
+		}
+		return -1
+	}
+	// budget test: an If in the body comparing (ph + d) or ph with a constant, true edge leaving the loop
+	tested := func(ph *ssa.Phi, pred *ssa.BasicBlock) (bool, string) {
+		for b := range body {
+			iff, ok := b.Instrs[len(b.Instrs)-1].(*ssa.If)
+			if !ok {
+				continue
+			}
+			f := p.FactOf(core.Guard{Cond: iff.Cond, Pol: true, If: iff})
+			if f.R == nil || f.R.Op != "const" || !(f.Op == ">" || f.Op == ">=") {
+				continue
+			}
+			if body[b.Succs[0]] {
+				continue // the true edge must leave the loop
+			}
+			l := f.L.Val
+			if bo, ok := l.(*ssa.BinOp); ok && bo.Op == token.ADD && bo.X == ssa.Value(ph) {
+				l = ph
+			}
+			if l != ssa.Value(ph) {
+				continue
+			}
+			if b == pred || b.Dominates(pred) {
+				return true, f.String()
+			}
+		}
+		return false, ""
+	}
+	var why []string
+	nBack := 0
+	for i, pred := range h.Preds {
+		if !body[pred] {
+			continue
+		}
+		nBack++
+		covered := false
+		for _, ph := range phis {
+			st := step(ph, i)
+			if st == 1 {
+				if ok, t := tested(ph, pred); ok {
+					covered = true
+					why = append(why, fmt.Sprintf("edge b%d: counter bounded by %s", pred.Index, shortStr(t)))
+				}
+			}
+		}
+		if !covered {
+			return "", fmt.Sprintf("the way round the loop through b%d increases no counter that is tested against a constant", pred.Index)
+		}
+	}
+	// counters used as budgets never decrease
+	for _, ph := range phis {
+		used := false
+		for i, pred := range h.Preds {
+			if body[pred] && step(ph, i) == 1 {
+				used = true
+			}
+		}
+		if !used {
+			continue
+		}
+		for i, pred := range h.Preds {
+			if body[pred] && step(ph, i) < 0 {
+				return "", "a budget counter is modified other than by a non-negative increment"
+			}
+		}
+	}
+	if nBack == 0 {
+		return "", ""
+	}
+	sort.Strings(why)
+	return "budget", strings.Join(why, "; ")
 }
